@@ -166,7 +166,13 @@ fn reject_cases(rep: &mut Report, rng: &mut Rng, n: u64) {
         if !optimized && !(rp + 2 <= size && rp + limit.max(2) <= size) {
             continue;
         }
-        let got = hooks::lz_match_len_fast_reject(&buf, rp as i32, md as i32 - 1, limit as i32);
+        let got = match std::panic::catch_unwind(|| hooks::lz_match_len_fast_reject(&buf, rp as i32, md as i32 - 1, limit as i32)) {
+            Ok(v) => v,
+            Err(_) => {
+                rep.fail("twin-fast-reject-panic", "get_match_len_fast_reject panicked inside the optimized twin's domain", detail());
+                continue;
+            }
+        };
         if in_contract {
             let want = reject_spec(&buf, rp, md, limit);
             if got != want {
@@ -214,8 +220,9 @@ fn reject_window_cases(rep: &mut Report, rng: &mut Rng, n: u64) {
         };
         if back < 2 {
             // clamped read: only when it rejects (see `reject_cases`)
-            let (c0, c1) = (tl - 2, (tl - back - md).min(tl - 2));
-            if tail[c0..c0 + 2] == tail[c1..c1 + 2] {
+            // (also for a clamp that is off by one, so that such a defect is reported by value and not by an abort)
+            let passes = |lim: usize| tail[(tl - 1).min(lim)..][..2] == tail[(tl - back - md).min(lim)..][..2];
+            if passes(tl - 2) || passes(tl - 3) {
                 rep.count("twin.reject.skipped-start-past-end");
                 continue;
             }
@@ -314,8 +321,15 @@ fn direct_cases(rep: &mut Report, rng: &mut Rng, n: u64) {
         let show = |t: (u32, u32, u32, usize)| format!("ok {} {} {} {}", t.0, t.1, t.2, t.3);
         // with range = 0 the portable loop never terminates (it normalizes until range >= 2^24); the decoder never
         // holds that state once `prepare` has run
-        let portable = if range != 0 { Some(hooks::rc_decode_direct_bits(&buf, pos, range, code, count, true)) } else { None };
-        let default = if range != 0 || guard_holds || count == 0 { Some(hooks::rc_decode_direct_bits(&buf, pos, range, code, count, false)) } else { None };
+        let mut call = |portable: bool| match std::panic::catch_unwind(|| hooks::rc_decode_direct_bits(&buf, pos, range, code, count, portable)) {
+            Ok(t) => Some(t),
+            Err(_) => {
+                rep.fail("twin-direct-bits-panic", &format!("decode_direct_bits panicked ({})", if portable { "portable loop" } else { "buffer decoder" }), detail());
+                None
+            }
+        };
+        let portable = if range != 0 { call(true) } else { None };
+        let default = if range != 0 || guard_holds || count == 0 { call(false) } else { None };
         if let Some(p) = portable {
             rep.model(format!("twin.direct {args} twin=portable"), show(p));
             rep.count("twin.direct.portable");
